@@ -1,6 +1,7 @@
 package main
 
 import (
+	scheduler "github.com/oasisprotocol/oasis-core/go/scheduler/api"
 	"github.com/oasisprotocol/oasis-core/go/common"
 	"github.com/oasisprotocol/oasis-core/go/common/cbor"
 	beacon "github.com/oasisprotocol/oasis-core/go/beacon/api"
@@ -159,6 +160,18 @@ func (w *world) runtimeTxs() []txT {
 		{Name: "runtime-update(e0,->runtime governance)", Signer: k.Entities[0], Method: registry.MethodRegisterRuntime, Body: rt(func(r *registry.Runtime) { r.GovernanceModel = registry.GovernanceRuntime })},
 		{Name: "runtime-update(e0,kind->keymanager)", Signer: k.Entities[0], Method: registry.MethodRegisterRuntime, Body: rt(func(r *registry.Runtime) { r.Kind = registry.KindKeyManager })},
 		{Name: "runtime-update(e0,group size 0)", Signer: k.Entities[0], Method: registry.MethodRegisterRuntime, Body: rt(func(r *registry.Runtime) { r.Executor.GroupSize = 0 })},
+		{Name: "runtime-update(e0,max nodes per entity 0)", Signer: k.Entities[0], Method: registry.MethodRegisterRuntime, Body: rt(func(r *registry.Runtime) {
+			setConstraint(r, func(c *registry.SchedulingConstraints) { c.MaxNodes = &registry.MaxNodesConstraint{Limit: 0} })
+		})},
+		{Name: "runtime-update(e0,min pool 200)", Signer: k.Entities[0], Method: registry.MethodRegisterRuntime, Body: rt(func(r *registry.Runtime) {
+			setConstraint(r, func(c *registry.SchedulingConstraints) { c.MinPoolSize = &registry.MinPoolSizeConstraint{Limit: 200} })
+		})},
+		{Name: "runtime-update(e0,validator-set constraint,max nodes 1)", Signer: k.Entities[0], Method: registry.MethodRegisterRuntime, Body: rt(func(r *registry.Runtime) {
+			setConstraint(r, func(c *registry.SchedulingConstraints) {
+				c.ValidatorSet = &registry.ValidatorSetConstraint{}
+				c.MaxNodes = &registry.MaxNodesConstraint{Limit: 1}
+			})
+		})},
 		{Name: "runtime-new(e1)", Signer: k.Entities[1], Method: registry.MethodRegisterRuntime, Body: rt(func(r *registry.Runtime) { r.ID = other; r.EntityID = k.Entities[1].Public() })},
 		{Name: "runtime-new(e2,runtime governance)", Signer: k.Entities[2], Method: registry.MethodRegisterRuntime, Body: rt(func(r *registry.Runtime) {
 			r.ID = other
@@ -255,4 +268,19 @@ func (w *world) vaultTxs() []txT {
 		{Name: "escrow(a0->V,50) vault as escrow account", Signer: k.Accounts[0], Method: staking.MethodAddEscrow, Body: staking.Escrow{Account: V, Amount: qq(50)}},
 	}
 	return ts
+}
+
+// setConstraint edits the scheduling constraints of every executor role of a runtime descriptor.
+func setConstraint(r *registry.Runtime, f func(c *registry.SchedulingConstraints)) {
+	if r.Constraints == nil {
+		r.Constraints = map[scheduler.CommitteeKind]map[scheduler.Role]registry.SchedulingConstraints{}
+	}
+	if r.Constraints[scheduler.KindComputeExecutor] == nil {
+		r.Constraints[scheduler.KindComputeExecutor] = map[scheduler.Role]registry.SchedulingConstraints{}
+	}
+	for _, role := range []scheduler.Role{scheduler.RoleWorker, scheduler.RoleBackupWorker} {
+		c := r.Constraints[scheduler.KindComputeExecutor][role]
+		f(&c)
+		r.Constraints[scheduler.KindComputeExecutor][role] = c
+	}
 }
